@@ -72,6 +72,10 @@ def main(prop):
     violations += bv
     states += bs; trans += bt
     extra_cov.update(bcov)
+    import conform_stage
+    ccov, cs, ct = conform_stage.run_box(files, thorough)
+    extra_cov.update(ccov)
+    states += cs; trans += ct
     if prop in ('C09', 'C11'):
         # the same property at the level of the whole matcher (worker pool, snapshot, restart, handles)
         import nuc_props
